@@ -15,10 +15,13 @@ Proved here
 * `C08_applyToTrie_order` — over a correct trie, `applyToTrie` gives the same trie for every
   iteration order of the Go maps (and never panics).
 * `C08_refines_partial`, `C08_commit_outermost_partial` — on the fragment put / del / get / next /
-  ents / clr (main storage), cput / cdel / cget / cclr / cnext / ckeys / kill (child tries), start /
-  commit / rollback at any depth, provided no string is used both as a main key and as a child-trie
-  key, no main key or cleared prefix touches `:child_storage:default:`, and no child trie is written
-  after it was deleted in the same transaction, every observable of the model over a correct trie equals
+  ents / clr / clrl (main storage), cput / cdel / cget / cclr / cclrl / cnext / ckeys / kill / killl
+  (child tries), start / commit / rollback at any depth, i.e. every operation of the property with its
+  (deleted, allDeleted) results, outside the regions of the known findings (stated exactly at `OpOK`
+  and `StepOK`: no string used both as main key and as child-trie key, nothing at or below
+  `:child_storage:default:`, no child trie written after it was deleted in the same transaction,
+  limited clears only when every key written in the transaction has the prefix, ...),
+  every observable of the model over a correct trie equals
   the specification's, every transaction level has exactly the specification's logical content,
   and the outermost commit leaves exactly the specification's committed state (same entries, same
   child tries, hence the same root for any root function); `C08_commit_direct_partial`: it is the
@@ -76,9 +79,11 @@ def t0 : TS Logical := { base := Logical.empty, txs := [] }
 def s0 : SS := { back := Logical.empty, stack := [] }
 
 /-- Every observable of the model over a correct trie equals the specification's, for every history
-    whose steps are in the fragment (`SafeRun`: `OpOK` for each operation — put / del / get / next /
-    ents / clr on main storage, cput / cdel / cget / cclr / cnext / ckeys / kill on child tries,
-    start / commit / rollback — with the exact exclusions stated at `OpOK` and `StepOK`). -/
+    whose steps are in the fragment (`SafeRun`: `StepOK` at every step — put / del / get / next /
+    ents / clr / clrl on main storage, cput / cdel / cget / cclr / cclrl / cnext / ckeys / kill /
+    killl on child tries, start / commit / rollback, i.e. every operation of the property except
+    `croot` — with the exact exclusions stated at `OpOK` and `StepOK`, which mirror the regions of
+    the known findings). -/
 theorem C08_refines_partial (Hc Hm : Entries → Bytes) (D : Dumper Logical) (CK : Bytes → Bool)
     (ops : List Op) (hops : SafeRun Hc Hm D CK t0 ops) :
     (runTS (idealBackend Hc Hm) D Diff.sortedOrder t0 ops).2 = (specRun Hc Hm s0 ops).2 :=
@@ -131,7 +136,11 @@ def demoOps : List Op :=
   [Op.put [1] (some [2]), Op.put [1, 5] (some [3]), Op.cput [0x4b, 1] [1] (some [3]), Op.start,
    Op.clr [1], Op.next [], Op.ents, Op.cput [0x4b, 1] [2] none, Op.start, Op.kill [0x4b, 1],
    Op.ckeys [0x4b, 1] [], Op.rollback, Op.cclr [0x4b, 1] [1], Op.cnext [0x4b, 1] [], Op.del [1],
-   Op.cdel [0x4b, 1] [2], Op.commit, Op.get [1], Op.cget [0x4b, 1] [1]]
+   Op.cdel [0x4b, 1] [2], Op.commit, Op.get [1], Op.cget [0x4b, 1] [1],
+   Op.put [2] (some [1]), Op.put [2, 1] (some [1]), Op.clrl [2] 1, Op.cput [0x4b, 2] [1] (some [1]),
+   Op.cput [0x4b, 2] [1, 1] (some [2]), Op.start, Op.put [2, 2] (some [3]), Op.clrl [2] 1,
+   Op.cput [0x4b, 2] [1, 2] (some [3]), Op.cclrl [0x4b, 2] [1] 1, Op.killl [0x4b, 2] (some 1),
+   Op.commit, Op.cclrl [0x4b, 2] [1] 2, Op.killl [0x4b, 2] none]
 
 instance (CK : Bytes → Bool) (op : Op) : Decidable (OpOK CK op) := by
   cases op <;> unfold OpOK <;> infer_instance
